@@ -149,7 +149,8 @@ func (c *ConnScript) Segments() (ts []int, segs [][]byte) {
 }
 
 type Submission struct {
-	Msgs []*rwp.InboundMessage
+	Msgs  []*rwp.InboundMessage
+	Delay int // ms to wait before handing this one over
 }
 
 type Scenario struct {
@@ -165,6 +166,7 @@ type Scenario struct {
 	SubStart   int            // ms after onconnect
 	Subs       [][]Submission // per submitter goroutine
 	MeasureMem bool
+	RecvFrom   int // ms: the consumer of msgsFromPanel starts receiving only then (0 = at once)
 }
 
 // ---------- canonical digests (oracle values for unmarshal / decode / marshal) ----------
@@ -310,6 +312,9 @@ func runScenario(sc *Scenario) []Sx {
 		fromPanel := make(chan []*rwp.OutboundMessage)
 		recvDone := make(chan struct{})
 		go func() {
+			if sc.RecvFrom > 0 {
+				time.Sleep(time.Until(lg.start.Add(time.Duration(sc.RecvFrom) * time.Millisecond)))
+			}
 			for m := range fromPanel {
 				d := canonOut(m)
 				lg.add(func(t int) Sx { return L(Sym("dlv"), t, d) })
@@ -328,6 +333,9 @@ func runScenario(sc *Scenario) []Sx {
 						defer subWG.Done()
 						time.Sleep(time.Duration(sc.SubStart) * time.Millisecond)
 						for _, s := range list {
+							if s.Delay > 0 {
+								time.Sleep(time.Duration(s.Delay) * time.Millisecond)
+							}
 							select {
 							case toPanel <- s.Msgs:
 							case <-ctx.Done():
@@ -472,7 +480,7 @@ func (sc *Scenario) inputSx() []Sx {
 	orc := map[string][]Sx{}
 	addA := func(line []byte) {
 		tr := strings.TrimSpace(string(line))
-		if _, ok := orc["a"+tr]; !ok && len(tr) < 100000 {
+		if _, ok := orc["a"+tr]; !ok && len(tr) < 400000 {
 			orc["a"+tr] = L(Sym("a"), []byte(tr), oracleDecode(tr))
 		}
 	}
@@ -510,6 +518,9 @@ func (sc *Scenario) inputSx() []Sx {
 				orc["b"+string(d)] = L(Sym("b"), it.Data.Sx(), oracleUnmarshal(d))
 			case "ln":
 				items = append(items, L(Sym("ln"), it.Data.Sx(), it.Eol))
+				if d := it.Data.Bytes(); strings.TrimSpace(string(it.Encode())) == string(d) && len(d) >= 1000 {
+					orc["a"+string(d)] = L(Sym("a"), it.Data.Sx(), oracleDecode(string(d)))
+				}
 			default:
 				items = append(items, L(Sym("raw"), it.Data.Sx()))
 			}
@@ -519,7 +530,7 @@ func (sc *Scenario) inputSx() []Sx {
 		// start and from the end of the first segment (which the probe read consumes)
 		st := c.Stream()
 		_, sg := c.Segments()
-		if len(st) < 200000 {
+		if len(st) < 1500000 {
 			addLines(st)
 			addFrames(st)
 			if len(sg) > 0 {
@@ -554,12 +565,12 @@ func (sc *Scenario) inputSx() []Sx {
 			for _, l := range rwl.InboundMessagesToRawPanelASCIIstrings(sub.Msgs) {
 				lines = append(lines, []byte(l))
 			}
-			one = append(one, L(Sym("s"), ms, lines))
+			one = append(one, L(Sym("s"), ms, lines, sub.Delay))
 		}
 		subs = append(subs, one)
 	}
 	return []Sx{
-		L(Sym("cfg"), Sym(sc.Entry), sc.UseCfg, sc.NoConn, sc.ReConn, sc.ListenFrom, sc.Cancel, sc.Sensitive),
+		L(Sym("cfg"), Sym(sc.Entry), sc.UseCfg, sc.NoConn, sc.ReConn, sc.ListenFrom, sc.Cancel, sc.Sensitive, sc.RecvFrom),
 		conns, ol, L(Sym("subs"), sc.SubStart, subs),
 	}
 }
@@ -622,6 +633,9 @@ func parseScenario(line string) *Scenario {
 	sc.UseCfg = cfg[2].Bool()
 	sc.NoConn, sc.ReConn, sc.ListenFrom, sc.Cancel = cfg[3].Int(), cfg[4].Int(), cfg[5].Int(), cfg[6].Int()
 	sc.Sensitive = cfg[7].Bool()
+	if len(cfg) > 8 {
+		sc.RecvFrom = cfg[8].Int()
+	}
 	for _, c := range n.Kids[3].Kids {
 		var cs ConnScript
 		for _, it := range c.Kids[1].Kids {
@@ -648,6 +662,9 @@ func parseScenario(line string) *Scenario {
 				msg := &rwp.InboundMessage{}
 				proto.Unmarshal(m.Kids[1].Bytes(), msg)
 				sb.Msgs = append(sb.Msgs, msg)
+			}
+			if len(sub.Kids) > 3 {
+				sb.Delay = sub.Kids[3].Int()
 			}
 			one = append(one, sb)
 		}
@@ -746,20 +763,40 @@ func runBatch(scs []*Scenario, par int) {
 		}(i)
 	}
 	wg2.Wait()
+	// re-runs: at most the first 5 disagreeing scenarios that qualify, concurrently with each
+	// other (nothing else is running then), up to two more times each
+	var again []int
 	for i := range scs {
 		v := results[i].verd
-		if v != "" && (isTimingVerdict(v) || scs[i].Sensitive) {
+		if v != "" && (isTimingVerdict(v) || scs[i].Sensitive) && len(again) < 5 {
+			again = append(again, i)
+		}
+	}
+	var wg3 sync.WaitGroup
+	var mu sync.Mutex
+	for _, i := range again {
+		wg3.Add(1)
+		go func(i int) {
+			defer wg3.Done()
+			v := results[i].verd
 			for k := 0; k < 2 && v != ""; k++ {
+				mu.Lock()
 				rerunCount++
+				mu.Unlock()
 				ev := runScenario(scs[i])
 				line := sxString(scs[i].caseSx(ev))
 				v = askModel(line)
 				results[i].line = line
 			}
 			if v == "" {
+				mu.Lock()
 				rerunRescued++
+				mu.Unlock()
 			}
-		}
+		}(i)
+	}
+	wg3.Wait()
+	for i := range scs {
 		out.WriteString(results[i].line + "\n")
 	}
 	out.Flush()
